@@ -48,7 +48,11 @@ STATE_MEASURE = ('distinct (section kind at the fault, position class: '
                  'after-inner-newline / last-content-byte / between-sections '
                  '/ inside-content, outcome class)')
 
-NONNUMERIC = ['abc', '1.5', '1e3', '0x10', '12a', '-', '.', 'x1', '1-1']
+NONNUMERIC = ['abc', '1.5', '1e3', '0x10', '12a', '-', '.', 'x1', '1-1',
+              # other spellings of the *true* length / of an inner line end:
+              # not decimal integers, so never acceptable
+              '@hex', '@oct', '@bin', '@hex-inner', '@HEX',
+              '@hex', '@hex-inner']
 
 
 def generate(rng, tier, cls):
@@ -64,7 +68,8 @@ def generate(rng, tier, cls):
         prod = {'id': 'P1', 'kind': 'raw', 'file': 'f1',
                 'foreign': gen.gen_foreign(
                     rng, max_changes=3 if tier == 'thorough' else 2,
-                    max_files=3 if tier == 'thorough' else 2)}
+                    max_files=3 if tier == 'thorough' else 2,
+                    big=rng.chance(0.08))}
 
     scn = {'actors': [prod], 'schedule': [], 'faults': [],
            'block_size': bs}
@@ -166,6 +171,9 @@ def judge(out, tag, R_full, recs, end, exc, L, ctx, allow_length_on=None,
             d = '<not-a-dict>'
         else:
             for k in sorted(set(g) | set(w)):
+                if k.startswith('_nl_'):
+                    continue
+
                 if k not in g:
                     d = '-' + k
                 elif k not in w:
@@ -203,8 +211,15 @@ def judge(out, tag, R_full, recs, end, exc, L, ctx, allow_length_on=None,
 
         if d == '!' + str(ck) and ck in ('text', 'diff') and \
            type(gv) is type(cv) and i == n - 1 and end == 'eof':
+            # ... and the shortened content still ends in the section's own
+            # line ending (that is why the reader's only integrity check, the
+            # trailing newline, cannot notice)
+            nlk = w.get('_nl_text') if isinstance(gv, str) \
+                else w.get('_nl_bytes')
+
             if cut is not None and data_end_section == i and \
-               len(gv) < len(cv) and cv.startswith(gv):
+               len(gv) < len(cv) and cv.startswith(gv) and \
+               nlk and gv.endswith(nlk):
                 out.violate('C07.altered-record',
                             'cut-inside-content:short-content-yielded', info)
                 return 'known-short'
@@ -288,6 +303,11 @@ def execute(scn, L):
     if end != 'eof' or len(R_full) != len(ref):
         out.discarded = 'intact-unreadable'
         return out
+
+    for rr, rf in zip(R_full, ref):
+        if '_kind' in rf and isinstance(rr, dict):
+            rr['_nl_text'] = '\n' if rf['_kind'] == 'unix' else '\r\n'
+            rr['_nl_bytes'] = R.NL(rf['_kind'], rf['_eff'])
 
     fdig = pipe.scn_digest([intact.hex(), bs])
     out.case_key = fdig
@@ -532,6 +552,15 @@ def execute(scn, L):
                 return out
         else:
             val = str(f.get('value', 'abc'))
+
+            if val.startswith('@'):
+                n = ce - he
+                inner = intact.find(b'\n', he, ce - 1)
+                k = (inner + 1 - he) if inner >= 0 else n
+                val = {'@hex': hex(n), '@oct': oct(n), '@bin': bin(n),
+                       '@HEX': '0X%X' % n, '@hex-inner': hex(k),
+                       '@underscore': ('%d_%d' % (n // 10, n % 10))
+                       if n >= 10 else '0_%d' % n}.get(val, 'abc')
 
             if R.INT_RE.match(val):
                 out.discarded = 'fault_not_taken'
